@@ -43,6 +43,17 @@ def cases(tier, seed):
         for b in nn:
             for c in STEPS:
                 yield {"k": "fill", "args": [a, b, c], "n": NMAX[tier]}
+    # long flows and large indices (beyond CPython's cache of small ints, beyond 1000)
+    big = [None, 0, 1, 250, 255, 256, 257, 258, 300, 511, 600, 1000, 1023]
+    for a in big:
+        for b in big:
+            if a is not None and b is not None and b < a:
+                continue
+            for c in [None, 1, 3, 7, 128, 257]:
+                yield {"k": "long", "args": [a, b, c]}
+    for a in [-1, -2, -255, -256, -257, -300, -1000]:
+        for b in [None, -1, -100, -256, -258, 600, 1024]:
+            yield {"k": "long", "args": [a, b, None], "run_only": True}
     for a in [None, -3, 0, 2]:
         for b in [None, -2, 0, 5]:
             for c in [0, -1, -2, 1.5, 0.5, -0.5]:
@@ -130,6 +141,42 @@ def run_case(r, obs):
                     obs.check(not later, "slice-stopfill-too-early",
                               "Slice%r raised LenaStopFill at index %d although indices %r "
                               "are still selected" % (args, stopped_at, later))
+    elif k == "long":
+        args = r["args"]
+        obs.nontrivial = True
+        for n in (0, 255, 256, 257, 258, 300, 700, 1030):
+            # int objects built at run time (never the cached small ints nor shared constants)
+            xs = [int("%d" % (100000 + i)) for i in range(n)]
+            ref = xs[slice(*args)]
+            got = list(lena.flow.Slice(*args).run(iter(xs)))
+            obs.count("slice_runs")
+            obs.check(got == ref, "slice-run-differs:long-flow",
+                      "Slice%r.run over %d values yields %d values (first %r, last %r), list "
+                      "slicing gives %d (first %r, last %r)"
+                      % (tuple(args), n, len(got), got[:1], got[-1:], len(ref), ref[:1], ref[-1:]))
+            if r.get("run_only"):
+                continue
+            s = lena.flow.Slice(*args)
+            col = Collect()
+            stopped_at = None
+            for i, x in enumerate(xs):
+                try:
+                    s.fill_into(col, x)
+                except lena.core.LenaStopFill:
+                    stopped_at = i
+                    break
+            obs.count("fill_into_histories")
+            obs.check(col.got == ref, "slice-fill_into-differs:long-flow",
+                      "Slice%r.fill_into over %d values filled %d values (last %r), list slicing "
+                      "gives %d (last %r); stopped at %r"
+                      % (tuple(args), n, len(col.got), col.got[-1:], len(ref), ref[-1:],
+                         stopped_at))
+            if stopped_at is not None:
+                obs.count("stopfill_seen")
+                sel = set(range(n + 2000)[slice(*args)])
+                obs.check(not [j for j in sel if j >= stopped_at], "slice-stopfill-too-early",
+                          "Slice%r raised LenaStopFill at index %d although later indices are "
+                          "still selected" % (tuple(args), stopped_at))
     elif k == "badstep":
         a, b, c = r["args"]
         obs.nontrivial = True
